@@ -53,14 +53,40 @@ func resolveCodec(a *A, rule string) *codec {
 	if !a.need(rows != nil, rule, "binlogEvent.Rows") {
 		return nil
 	}
-	instrs(rows, func(in ssa.Instruction) {
-		if c, ok := in.(*ssa.Call); ok {
-			if f := c.Common().StaticCallee(); f != nil && f.Pkg == w.Repl && len(f.Params) == 4 && f.Signature.Results().Len() == 2 &&
-				isIntegerType(f.Signature.Results().At(0).Type()) && isErrType(f.Signature.Results().At(1).Type()) {
-				cd.lenFn = f
+	// looked for in Rows and in the in-package functions Rows calls (depth 2)
+	var findLen func(g *ssa.Function, depth int)
+	seenLen := map[*ssa.Function]bool{}
+	findLen = func(g *ssa.Function, depth int) {
+		if seenLen[g] || cd.lenFn != nil {
+			return
+		}
+		seenLen[g] = true
+		var next []*ssa.Function
+		instrs(g, func(in ssa.Instruction) {
+			if c, ok := in.(*ssa.Call); ok {
+				f := c.Common().StaticCallee()
+				if f == nil || f.Pkg != w.Repl || c.Common().IsInvoke() {
+					return
+				}
+				if len(f.Params) == 4 && f.Signature.Results().Len() == 2 && isIntegerType(f.Signature.Results().At(0).Type()) && isErrType(f.Signature.Results().At(1).Type()) &&
+					isIntegerType(f.Params[1].Type()) && isIntegerType(f.Params[2].Type()) && isIntegerType(f.Params[3].Type()) {
+					if cd.lenFn == nil {
+						cd.lenFn = f
+					}
+					return
+				}
+				if f.Blocks != nil {
+					next = append(next, f)
+				}
+			}
+		})
+		if depth < 2 {
+			for _, f := range next {
+				findLen(f, depth+1)
 			}
 		}
-	})
+	}
+	findLen(rows, 0)
 	if !a.need(cd.lenFn != nil, rule, "length rule (callee of Rows with (data,pos,typ,metadata)->(int,error))") {
 		return nil
 	}
